@@ -10,6 +10,7 @@ package main
 import (
 	"context"
 	"fmt"
+	"io"
 	"net/http"
 	"net/http/httptest"
 	"os"
@@ -35,7 +36,7 @@ import (
 type MReq struct {
 	Method string
 	Path   string
-	Mode   string // E explicit status+body, Q silent, O bare Write
+	Mode   string // E explicit status+body, Q silent, O bare Write, H 103 Early Hints then explicit status+body (real server only)
 	Status int
 	Size   int
 }
@@ -48,7 +49,7 @@ type foreign64 struct {
 }
 
 func (w *foreign64) WriteHeader(c int) {
-	if w.status == 0 {
+	if w.status == 0 && !(c >= 100 && c <= 199 && c != 101) {
 		w.status = c
 	}
 	w.ResponseWriter.WriteHeader(c)
@@ -89,6 +90,11 @@ func mprog(w http.ResponseWriter, r *http.Request) {
 		w.WriteHeader(st)
 		_, _ = w.Write(body[:n])
 	case "O":
+		_, _ = w.Write(body[:n])
+	case "H":
+		w.Header().Set("Link", "</style.css>; rel=preload")
+		w.WriteHeader(http.StatusEarlyHints) // informational: the final status follows
+		w.WriteHeader(st)
 		_, _ = w.Write(body[:n])
 	}
 }
@@ -188,7 +194,7 @@ var mPatterns = []string{"/s", "/p/:id", exclPrefix + "ping"}
 func mPredict(term string, q MReq) (status, size int, label string) {
 	status, size = 200, 0
 	switch q.Mode {
-	case "E":
+	case "E", "H":
 		status, size = q.Status, q.Size
 	case "O":
 		size = q.Size
@@ -259,6 +265,11 @@ func runM(id string, cs Case) string {
 			h = http.HandlerFunc(func(w http.ResponseWriter, r *http.Request) { next.ServeHTTP(foreignBlind{w}, r) })
 		}
 	}
+	var srv *httptest.Server
+	if cs.Wire {
+		srv = httptest.NewServer(h)
+		defer srv.Close()
+	}
 	l := hx.NewLine(id)
 	l.Tok("M").Bool(cs.Term == "app").Nat(len(cs.Stack))
 	for _, s := range cs.Stack {
@@ -280,6 +291,21 @@ func runM(id string, cs Case) string {
 			req := httptest.NewRequest(q.Method, "http://h.test/", nil)
 			req.URL.Path = q.Path
 			req.Header.Set("X-MProg", fmt.Sprintf("%s,%d,%d", q.Mode, q.Status, q.Size))
+			if srv != nil {
+				// through a real server and client: net/http's own writer underneath (1xx responses, implicit 200)
+				creq, _ := http.NewRequest(q.Method, srv.URL+"/", nil)
+				creq.URL.Path = q.Path
+				creq.Header = req.Header
+				resp, err := srv.Client().Do(creq)
+				if err != nil {
+					panicked = true
+					return
+				}
+				b, _ := io.ReadAll(resp.Body)
+				_ = resp.Body.Close()
+				clients[i] = cl{resp.StatusCode, len(b)}
+				return
+			}
 			rw := httptest.NewRecorder()
 			h.ServeHTTP(rw, req)
 			clients[i] = cl{rw.Code, rw.Body.Len()}
@@ -331,5 +357,9 @@ func mWitnesses() []Case {
 		{Kind: "M", Term: "mux", Stack: []string{"M"}, MH: []MReq{e(503, 5), e(200, 3)}},
 		{Kind: "M", Term: "app", Stack: []string{"T"}, MH: []MReq{e(503, 5), {Method: "GET", Path: "/nope", Mode: "Q"}}},
 		{Kind: "M", Term: "app", Stack: []string{"M"}, MH: []MReq{e(418, 9), {Method: "POST", Path: "/p/1", Mode: "Q"}}},
+		// K08g: 103 Early Hints, then the final status — through a real server (app recorder / metrics / tracing middleware)
+		{Kind: "M", Term: "app", Wire: true, MH: []MReq{{Method: "GET", Path: "/s", Mode: "H", Status: 404, Size: 4}, e(200, 3)}},
+		{Kind: "M", Term: "mux", Wire: true, Stack: []string{"M"}, MH: []MReq{{Method: "GET", Path: "/s", Mode: "H", Status: 500, Size: 9}}},
+		{Kind: "M", Term: "mux", Wire: true, Stack: []string{"T"}, MH: []MReq{{Method: "GET", Path: "/s", Mode: "H", Status: 503, Size: 0}}},
 	}
 }
